@@ -153,6 +153,11 @@ def run_case(case):
     max_size = rng.choice([0, 0, 2, 3, 4, 5])
     if max_size:
         res.count("limit_cases")
+    if rng.random() < 0.25:
+        # the size limit as the caller may hold it: an element of a numpy array, a numpy scalar of any integer width
+        import numpy as np
+        max_size = rng.choice([np.int64, np.int32, np.uint8, np.intp])(max_size)
+        res.count("limits_given_as_numpy_integers")
     cliques = list(nx.enumerate_all_cliques(g0))
     res.count("graphs")
     base = {"graph": d, "edges": sorted(tuple(sorted(e)) for e in g0.edges()), "nodes": g0.number_of_nodes(), "max_size": max_size}
